@@ -22,6 +22,10 @@ def normLit (a : Atom) : Expr :=
   match a with
   | .num (.int base (Int.negSucc n)) =>
     if base = 10 then .un .neg (.lit (.num (.int 10 ((n + 1 : Nat) : Int)))) else .lit a
+  | .num (.flt c) =>
+    match fltNegText c.toList with
+    | some t => .un .neg (.lit (.num (.flt (String.ofList t))))
+    | none => .lit a
   | a => .lit (normAtom a)
 
 mutual
@@ -40,6 +44,9 @@ end
 def rxValidB (re : List Char) : Bool :=
   !(re.count '[' != re.count ']' || re.count '(' != re.count ')' || re.isEmpty)
 
+/-- a float text in the canonical spelling `newNumber` reproduces -/
+def fltDecOK (t : List Char) : Bool := t.contains '.' && decide (canonFloat t = .ok (String.ofList t))
+
 /-- the printed token of the atom decodes to the atom's own value (decidable): integers within int64, floats
 in canonical spelling, durations a multiple of 1us within int64 (or a literal that denotes the value), a regex
 literal that denotes the regex -/
@@ -51,7 +58,7 @@ def atomDecOK : Atom → Bool
   | .num (.int base v) =>
     (decide (base = 10) && decide (-int64Max ≤ v) && decide (v ≤ int64Max)) ||
     (decide (base = 8) && decide (0 ≤ v) && decide (v ≤ int64Max))
-  | .num (.flt c) => c.toList.contains '.' && decide (canonFloat c.toList = .ok c)
+  | .num (.flt c) => fltDecOK ((fltNegText c.toList).getD c.toList)
   | .dur ns lit =>
     if lit.isEmpty then decide (0 ≤ ns) && decide (ns ≤ int64Max) && decide (ns % 1000 = 0)
     else decide (newDur lit = .ok ns)
@@ -73,6 +80,10 @@ end
 
 theorem decodeAll_single (t : RTok) (x : Tok) (h : decode t = .ok x) : decodeAll [t] = .ok [x] := by
   simp [decodeAll, h]
+
+theorem decodeAll_cons (t : RTok) (x : Tok) (a : List RTok) (a' : List Tok) (ht : decode t = .ok x)
+    (ha : decodeAll a = .ok a') : decodeAll (t :: a) = .ok (x :: a') := by
+  simp [decodeAll, ht, ha]
 
 theorem decode_bool (v : Bool) : decode (atomRaw (.bool v)) = .ok (.lit (.bool v)) := by
   cases v <;> rfl
@@ -108,15 +119,15 @@ theorem decode_dur_lit (ns : Int) (lit : String) (hl : lit.isEmpty = false) (h :
   have ht : atomText (.dur ns lit) = lit.toList := by simp [atomText, fmtAtom, hl]
   simp [atomRaw, decode, ht, h]
 
-theorem decode_flt (c : String) (h1 : c.toList.contains '.' = true) (h2 : canonFloat c.toList = .ok c) :
-    decode (.number (String.ofList (atomText (.num (.flt c))))) = .ok (.lit (.num (.flt c))) := by
-  have hne : c.toList ≠ [] := by intro hn; rw [hn] at h1; simp at h1
-  have hemp : c.toList.isEmpty = false := by
-    cases hc : c.toList with
-    | nil => exact absurd hc hne
+theorem decode_flt (t : List Char) (h : fltDecOK t = true) :
+    decode (.number (String.ofList t)) = .ok (.lit (.num (.flt (String.ofList t)))) := by
+  simp only [fltDecOK, Bool.and_eq_true, decide_eq_true_eq] at h
+  obtain ⟨h1, h2⟩ := h
+  have hemp : t.isEmpty = false := by
+    cases t with
+    | nil => simp at h1
     | cons _ _ => rfl
-  rw [atomText_flt]
-  simp only [decode, newNumber, String.ofList_toList, hemp, h1, h2]
+  simp only [decode, newNumber, String.toList_ofList, hemp, h1, h2]
   simp
 
 /-- the raw token(s) of an operand decode to the token(s) of its normal form -/
@@ -145,18 +156,39 @@ theorem decode_atomRaws (a : Atom) (h : atomDecOK a = true) (x : Bool) :
   | num n =>
     cases n with
     | flt c =>
-      simp only [atomDecOK, Bool.and_eq_true, decide_eq_true_eq] at h
-      have hd := decode_flt c h.1 h.2
-      have hne : ∀ t, atomText (.num (.flt c)) ≠ '-' :: t := by
-        intro t heq
-        rw [atomText_flt] at heq
-        have h2 := h.2
-        rw [heq] at h2
-        simp [canonFloat, isDigit] at h2
-      have hr : atomRaws (.num (.flt c)) = [.number (String.ofList (atomText (.num (.flt c))))] := by
-        simp only [atomRaws]
-      rw [hr]
-      exact decodeAll_single _ _ hd
+      simp only [atomDecOK] at h
+      cases hn : fltNegText c.toList with
+      | some t =>
+        rw [hn] at h
+        simp only [Option.getD_some] at h
+        have hct : c.toList = '-' :: t := by
+          unfold fltNegText at hn
+          split at hn
+          · rename_i t' heq; simp at hn; rw [heq, hn]
+          · simp at hn
+        have ht : atomText (.num (.flt c)) = '-' :: t := by rw [atomText_flt, hct]
+        have hr : atomRaws (.num (.flt c)) = [.op .TokenMinus, .number (String.ofList t)] := by
+          simp [atomRaws, ht]
+        rw [hr]
+        have hd := decode_flt t h
+        have h2 := decodeAll_cons (.op .TokenMinus) (.op .TokenMinus) _ _ rfl (decodeAll_single _ _ hd)
+        simpa [normLit, hn, fmtToksP] using h2
+      | none =>
+        rw [hn] at h
+        simp only [Option.getD_none] at h
+        have hd := decode_flt c.toList h
+        rw [String.ofList_toList] at hd
+        have hne : ∀ t, atomText (.num (.flt c)) ≠ '-' :: t := by
+          intro t heq
+          rw [atomText_flt] at heq
+          rw [heq] at hn
+          simp [fltNegText] at hn
+        have hr : atomRaws (.num (.flt c)) = [.number c] := by
+          simp only [atomRaws]
+          rw [atomText_flt, String.ofList_toList]
+        rw [hr]
+        have := decodeAll_single _ _ hd
+        simpa [normLit, hn, fmtToksP] using this
     | int base v =>
       simp only [atomDecOK, Bool.or_eq_true, Bool.and_eq_true, decide_eq_true_eq] at h
       rcases h with ⟨⟨rfl, hlo⟩, hhi⟩ | ⟨⟨rfl, hlo⟩, hhi⟩
@@ -209,15 +241,12 @@ theorem decodeAll_append : ∀ (a b : List RTok) (a' b' : List Tok), decodeAll a
     have := decodeAll_append a b xs b' hxs hb
     simp [decodeAll, hx, this]
 
-theorem decodeAll_cons (t : RTok) (x : Tok) (a : List RTok) (a' : List Tok) (ht : decode t = .ok x)
-    (ha : decodeAll a = .ok a') : decodeAll (t :: a) = .ok (x :: a') := by
-  simp [decodeAll, ht, ha]
-
 theorem needsParens_norm (e : Expr) (o : BinOp) (s : Bool) : needsParens (norm e) o s = needsParens e o s := by
   cases e with
   | lit a =>
     simp only [norm, normLit]
     split
+    · split <;> simp [needsParens]
     · split <;> simp [needsParens]
     · simp [needsParens]
   | _ => simp [norm, needsParens]
